@@ -363,6 +363,9 @@ func (w *World) Make(kind string) ([]byte, string) {
 				coms = append(coms, c)
 			}
 		}
+		if rng.Intn(3) == 0 { // committee lists need not be sorted
+			rng.Shuffle(len(coms), func(i, j int) { coms[i], coms[j] = coms[j], coms[i] })
+		}
 		delegate := rng.Intn(5) == 0
 		return w.sign(signer, &fsm.MessageStake{PublicKey: k.PublicKey().Bytes(), Amount: amt, Committees: coms, NetAddress: netAddr(delegate), OutputAddress: out.Bytes(), Delegate: delegate, Compound: rng.Intn(2) == 0},
 			w.fee(fsm.MessageStakeName), h, "", nil), fmt.Sprintf("amount=%d delegate=%v", amt, delegate)
@@ -388,6 +391,9 @@ func (w *World) Make(kind string) ([]byte, string) {
 		}
 		if len(coms) == 0 {
 			coms = []uint64{w.Opts.ChainID}
+		}
+		if rng.Intn(3) == 0 { // committee lists need not be sorted
+			rng.Shuffle(len(coms), func(i, j int) { coms[i], coms[j] = coms[j], coms[i] })
 		}
 		out := v.Output
 		if rng.Intn(4) == 0 {
